@@ -248,7 +248,7 @@ def tc_check(repo, res, fn_q, enum, accepted, allow, extra_ok_adaptors=(), rule=
         matches = visiting
     # a pass visits the node it is given: nothing leaves the function before the dispatch on the node (a "nothing to do" fast path
     # in front of the match skips, with the rewriting, every side effect the arms have -- bookkeeping, error detection -- for the whole sub-tree)
-    first = min(matches, key=lambda m: (m["l"], m["c"]))
+    first = min(matches, key=A.pos)
     early = [r for r in A.walk(fn.body) if r["k"] == "Return" and A.before(r, first)]
     # an early return decided by looking AT THE NODE is an arm written in front of the match (judged by the rules for that variant);
     # one decided by anything else skips the node whatever it is
